@@ -177,6 +177,51 @@ pub fn record(args: &[String]) {
                 out.emit(&json!({"shape": name, "op": "flip", "off": o, "class": class_of(&boxes, o), "outcome": outcome, "report_equal": eq, "detail": detail, "base_state": base_state, "store_len": n}));
             }
         }
+        // COSE-level edits of every manifest's signature: the claim bytes (original or altered) are put into the COSE_Sign1
+        // payload field (a C2PA signature is detached: the field is nil), the unprotected header is emptied, the padding
+        // dropped -- alone and combined with byte flips inside the claim box
+        for (mi, mb) in boxes.iter().enumerate() {
+            if mb.ty != "jumb" || mb.depth != 1 { continue; }
+            let inside = |i: usize| { let mut p = boxes[i].parent; while let Some(x) = p { if x == mi { return true; } p = boxes[x].parent; } false };
+            let content_of = |lbl: &str| boxes.iter().enumerate().find(|(i, b)| b.ty == "jumb" && b.label.starts_with(lbl) && inside(*i)).and_then(|(i, _)| boxes.iter().enumerate().find(|(_, c)| c.parent == Some(i) && c.ty == "cbor").map(|(k, _)| k));
+            let (Some(ck), Some(sk)) = (content_of("c2pa.claim"), content_of("c2pa.signature")) else { continue };
+            let (cb, sb) = (&boxes[ck], &boxes[sk]);
+            let claim = store[cb.off + cb.hdr..cb.off + cb.size].to_vec();
+            let sig = &store[sb.off + sb.hdr..sb.off + sb.size];
+            use coset::{CborSerializable, TaggedCborSerializable};
+            let (parsed, tagged) = match coset::CoseSign1::from_tagged_slice(sig) { Ok(c) => (c, true), Err(_) => match coset::CoseSign1::from_slice(sig) { Ok(c) => (c, false), Err(_) => continue } };
+            let ancestors = |mut i: usize| { let mut v = vec![i]; while let Some(p) = boxes[i].parent { v.push(p); i = p; } v };
+            let mut edited_claim = claim.clone();
+            if let Some(last) = edited_claim.last_mut() { *last ^= 0x01; }
+            let variants: Vec<(&str, coset::CoseSign1)> = vec![
+                ("payload=claim", { let mut c = parsed.clone(); c.payload = Some(claim.clone()); c }),
+                ("payload=other", { let mut c = parsed.clone(); c.payload = Some(edited_claim.clone()); c }),
+                ("payload=empty", { let mut c = parsed.clone(); c.payload = Some(vec![]); c }),
+                ("unprotected-emptied", { let mut c = parsed.clone(); c.unprotected = coset::Header::default(); c }),
+                ("reencoded", parsed.clone()),
+            ];
+            for (vname, c) in variants {
+                let Ok(enc) = (if tagged { c.to_tagged_vec() } else { c.to_vec() }) else { continue };
+                let mut s2 = store[..sb.off + sb.hdr].to_vec();
+                s2.extend_from_slice(&enc);
+                s2.extend_from_slice(&store[sb.off + sb.size..]);
+                let delta = enc.len() as i64 - (sb.size - sb.hdr) as i64;
+                for a in ancestors(sk) { let ab = &boxes[a]; set_size(&mut s2, ab, (ab.size as i64 + delta) as usize); }
+                // claim box precedes the signature box or follows it: its offset moves only in the second case
+                let coff = if cb.off > sb.off { (cb.off as i64 + delta) as usize } else { cb.off };
+                let nflip = if vname == "reencoded" { 0 } else { 24usize };
+                let mut flips: Vec<Option<usize>> = vec![None];
+                let clen = cb.size - cb.hdr;
+                for k in 0..nflip { flips.push(Some(if k < 8 { k * clen / 8 } else { rng.gen_range(0..clen) })); }
+                flips.push(Some(clen - 1));
+                for f in flips {
+                    let mut s3 = s2.clone();
+                    if let Some(f) = f { s3[coff + cb.hdr + f] ^= 0x01; }
+                    let (outcome, eq, detail) = observe(fmt, &asset, &s3, &base);
+                    out.emit(&json!({"shape": name, "op": format!("cose:{vname}{}", if f.is_some() { "+claim-flip" } else { "" }), "off": f.map(|f| cb.off + cb.hdr + f).unwrap_or(sb.off), "class": class_of(&boxes, sb.off + sb.hdr), "outcome": outcome, "report_equal": eq, "detail": detail, "base_state": base_state, "store_len": n}));
+                }
+            }
+        }
         // structural edits on children of each superbox: swap adjacent siblings, duplicate, delete
         for (pi, pb) in boxes.iter().enumerate() {
             if pb.ty != "jumb" { continue; }
